@@ -150,6 +150,11 @@ def finish(rep, pid, extra_cov=None, level_note=None):
         for k in known.get("findings", []):
             if k["property"] == pid and re.search(k["function"], fn.sig.dem) and (not k.get("obligation") or any(k["obligation"] in f["property"] or k["obligation"] in f["description"] for f in fails)):
                 kf = k
+        src_assert = "source assertion" in f0.get("description", "")
+        if res is None and src_assert and isinstance(out, str) and re.search(r"Assertion .* failed", out):
+            # the obligation is an assert() of the library itself and the real code aborts on it for the replayed input
+            res = {"pre": 1, "post": 0, "aborted_on_source_assertion": True}
+            rec["native_result"] = res
         if res is None and meta.get("has_input") and (fn.aid is None or ARCHS[fn.aid][3]):
             # the replay program itself did not build or run: an infrastructure problem, never a verdict
             rep.infra.append({"fn": fn.sig.dem, "detail": "replay of %s did not build/run: %s" % (f0["property"], str(out)[-300:])})
